@@ -236,3 +236,149 @@ func (Bolt) MaskID(fr []byte) []byte {
 	}
 	return o
 }
+
+// ---------------- bolt v2 ----------------
+// proto(0)=2 ver1(1) type(2) cmdcode(3:5) ver2(5) requestId(6:10) codec(10) switch(11)
+// request:  timeout(12:16) classLen(16:18) headerLen(18:20) contentLen(20:24)
+// response: status(12:14)  classLen(14:16) headerLen(16:18) contentLen(18:22)
+
+type BoltV2 struct {
+	Version byte
+	Codec   byte
+}
+
+func (BoltV2) Name() string          { return "boltv2" }
+func (BoltV2) SuccessStatus() uint32 { return 0 }
+
+const (
+	boltV2ReqHdr  = 24
+	boltV2RespHdr = 22
+)
+
+func (BoltV2) Split(buf []byte) (int, error) {
+	if len(buf) < 3 {
+		return 0, nil
+	}
+	if buf[0] != 2 {
+		return 0, fmt.Errorf("boltv2: bad protocol code %d", buf[0])
+	}
+	switch buf[2] {
+	case 1, 2:
+		if len(buf) < boltV2ReqHdr {
+			return 0, nil
+		}
+		n := boltV2ReqHdr + int(binary.BigEndian.Uint16(buf[16:18])) + int(binary.BigEndian.Uint16(buf[18:20])) + int(binary.BigEndian.Uint32(buf[20:24]))
+		if len(buf) < n {
+			return 0, nil
+		}
+		return n, nil
+	case 0:
+		if len(buf) < boltV2RespHdr {
+			return 0, nil
+		}
+		n := boltV2RespHdr + int(binary.BigEndian.Uint16(buf[14:16])) + int(binary.BigEndian.Uint16(buf[16:18])) + int(binary.BigEndian.Uint32(buf[18:22]))
+		if len(buf) < n {
+			return 0, nil
+		}
+		return n, nil
+	}
+	return 0, fmt.Errorf("boltv2: bad cmd type %d", buf[2])
+}
+
+func (BoltV2) Parse(fr []byte) (*XFrame, error) {
+	f := &XFrame{Proto: "boltv2", Raw: fr}
+	cmd := binary.BigEndian.Uint16(fr[3:5])
+	f.ID = uint64(binary.BigEndian.Uint32(fr[6:10]))
+	var cl, hl, bl, off int
+	if fr[2] == 0 {
+		f.Status = uint32(binary.BigEndian.Uint16(fr[12:14]))
+		cl, hl, bl = int(binary.BigEndian.Uint16(fr[14:16])), int(binary.BigEndian.Uint16(fr[16:18])), int(binary.BigEndian.Uint32(fr[18:22]))
+		off = boltV2RespHdr
+	} else {
+		f.IsReq = true
+		f.Oneway = fr[2] == 2
+		f.Timeout = int32(binary.BigEndian.Uint32(fr[12:16]))
+		cl, hl, bl = int(binary.BigEndian.Uint16(fr[16:18])), int(binary.BigEndian.Uint16(fr[18:20])), int(binary.BigEndian.Uint32(fr[20:24]))
+		off = boltV2ReqHdr
+	}
+	if off+cl+hl+bl != len(fr) {
+		return nil, fmt.Errorf("boltv2: inconsistent lengths %d+%d+%d+%d != %d", off, cl, hl, bl, len(fr))
+	}
+	f.Heartbeat = cmd == 0
+	f.GoAway = cmd == 100
+	f.Class = string(fr[off : off+cl])
+	f.Headers, f.HdrErr = parseBoltKV(fr[off+cl : off+cl+hl])
+	f.Body = fr[off+cl+hl:]
+	return f, nil
+}
+
+func (p BoltV2) Build(f *XFrame) []byte {
+	hb := buildBoltKV(f.Headers)
+	ver := p.Version
+	if ver == 0 {
+		ver = 1
+	}
+	codec := p.Codec
+	if codec == 0 {
+		codec = 1
+	}
+	cmd := uint16(1)
+	if !f.IsReq {
+		cmd = 2
+	}
+	if f.Heartbeat {
+		cmd = 0
+	}
+	if f.GoAway {
+		cmd = 100
+	}
+	var out []byte
+	if f.IsReq {
+		out = make([]byte, boltV2ReqHdr, boltV2ReqHdr+len(f.Class)+len(hb)+len(f.Body))
+		out[2] = 1
+		if f.Oneway {
+			out[2] = 2
+		}
+		binary.BigEndian.PutUint32(out[12:], uint32(f.Timeout))
+		binary.BigEndian.PutUint16(out[16:], uint16(len(f.Class)))
+		binary.BigEndian.PutUint16(out[18:], uint16(len(hb)))
+		binary.BigEndian.PutUint32(out[20:], uint32(len(f.Body)))
+	} else {
+		out = make([]byte, boltV2RespHdr, boltV2RespHdr+len(f.Class)+len(hb)+len(f.Body))
+		out[2] = 0
+		binary.BigEndian.PutUint16(out[12:], uint16(f.Status))
+		binary.BigEndian.PutUint16(out[14:], uint16(len(f.Class)))
+		binary.BigEndian.PutUint16(out[16:], uint16(len(hb)))
+		binary.BigEndian.PutUint32(out[18:], uint32(len(f.Body)))
+	}
+	out[0] = 2
+	out[1] = 1 // ver1
+	binary.BigEndian.PutUint16(out[3:], cmd)
+	out[5] = ver
+	binary.BigEndian.PutUint32(out[6:], uint32(f.ID))
+	out[10] = codec
+	out[11] = 0 // switch: no crc
+	out = append(out, f.Class...)
+	out = append(out, hb...)
+	out = append(out, f.Body...)
+	return out
+}
+
+func (BoltV2) MaskID(fr []byte) []byte {
+	o := append([]byte(nil), fr...)
+	if len(o) >= 10 {
+		copy(o[6:10], []byte{0, 0, 0, 0})
+	}
+	return o
+}
+
+// CodecFor returns the peer codec of an xprotocol name.
+func CodecFor(proto string) XCodec {
+	switch proto {
+	case "bolt", "boltpp":
+		return Bolt{}
+	case "boltv2":
+		return BoltV2{}
+	}
+	return nil
+}
